@@ -419,7 +419,7 @@ def gen_cases(rng, tier):
                         codes = (400, 413)
                     yield finish(name, mh, mb, prefix_n, head, ("refuse", codes), None,
                                  recv=rng.choice([1, 7, 4096, 10 ** 9]) if len(head) < 3000 else rng.choice([1000, 8192, 10 ** 9]))
-        # the F6 class: an expecting request refused at the end of its head
+        # an expecting request refused at the end of its head (F6, repaired by fix e3537e2)
         for mb in (10, 1000):
             for name, head in (
                 ("expect-cl-over", b"POST /big HTTP/1.1\r\nHost: h\r\nExpect: 100-continue\r\nContent-Length: %d\r\n\r\n" % (mb + 1)),
